@@ -79,7 +79,9 @@ Fixpoint wf_history (m : list host) (es : list lb_event) : Prop :=
 (** ** Executable interpreter for the correspondence check.
     ops: (0 h...) bootstrap | (1 h) add | (2 h) remove | (3) new plan (ids 0,1,2.. in creation
     order) | (4 pid n) call Next n times on plan pid | (5 v) set the counter (verif hook) |
-    (6 ...) concurrent stress (observed only as "no duplicate seen" = 1).
+    (6 ...) concurrent stress (observed only as "no duplicate seen" = 1) |
+    (7 total) [total] plans created by concurrent goroutines on stable membership (observed as
+    "first-choice counts differ by at most one" = 1; the counter advances by [total]).
     output: one entry per op 4: the list of yielded keys, -1 for nil; op 6 yields (1). *)
 Record istate := { i_lb : lb; i_plans : list plan; i_out : list val }.
 
@@ -113,6 +115,8 @@ Definition step_op (s : istate) (op : val) : istate :=
            end
   | 5%Z => {| i_lb := {| lb_hosts := lb_hosts (i_lb s); lb_index := vN (nthv 1 op) mod counter_mod |};
               i_plans := i_plans s; i_out := i_out s |}
+  | 7%Z => {| i_lb := {| lb_hosts := lb_hosts (i_lb s); lb_index := (lb_index (i_lb s) + vN (nthv 1 op)) mod counter_mod |};
+              i_plans := i_plans s; i_out := i_out s ++ [L [I 1]] |}
   | _ => {| i_lb := i_lb s; i_plans := i_plans s; i_out := i_out s ++ [L [I 1]] |}
   end.
 
@@ -206,7 +210,9 @@ Definition hstep (s : hstate) (op : val) : hstate :=
       match h_outs s with
       | o :: rest => {| h_m := h_m s; h_plans := h_plans s; h_stamp := h_stamp s; h_outs := rest;
                         h_ok := h_ok s && val_eqb o (L [I 1]);
-                        h_why := if val_eqb o (L [I 1]) then h_why s else str "concurrent-duplicate-or-crash" |}
+                        h_why := if val_eqb o (L [I 1]) then h_why s
+                                 else if Z.eqb (vZ (nthv 0 op)) 7 then str "concurrent-first-choice-imbalance"
+                                 else str "concurrent-duplicate-or-crash" |}
       | [] => {| h_m := h_m s; h_plans := h_plans s; h_stamp := h_stamp s; h_outs := []; h_ok := false; h_why := str "output-shape" |}
       end
   end.
